@@ -1035,6 +1035,21 @@ func (cg *ConsumerGroup) assignTopicPartitions(conn coordinator, group joinGroup
 	if err != nil && !errors.Is(err, UnknownTopicOrPartition) {
 		return nil, err
 	}
+	if err != nil && len(topics) > 1 {
+		// the lookup fails as a whole when one of the topics is unknown: ask
+		// for the topics one by one so that only the missing ones go without
+		// assignments
+		partitions = partitions[:0]
+		for _, topic := range topics {
+			topicPartitions, err := conn.readPartitions(topic)
+			switch {
+			case err == nil:
+				partitions = append(partitions, topicPartitions...)
+			case !errors.Is(err, UnknownTopicOrPartition):
+				return nil, err
+			}
+		}
+	}
 
 	cg.withLogger(func(l Logger) {
 		l.Printf("using '%v' balancer to assign group, %v", group.GroupProtocol, cg.config.ID)
